@@ -122,16 +122,85 @@ Result run_scn(Scn const& sc, bool with_nat, Ctx* ctx)
 	return R;
 }
 
+// ---------------------------------------------------------------------------------------------
+// second family: one node with two addresses, one behind a NAT and one public; a single socket object is
+// used from one address, then closed, re-opened and bound to the other (or moved first). What the receiver
+// reports must follow the address each message was actually sent from.
+// ---------------------------------------------------------------------------------------------
+struct MhCfg { int first; /*0 natted address first, 1 public address first*/ int reuse; /*0 close+open+bind, 1 move-construct then close+open+bind, 2 a fresh socket per address*/ int proto; /*0 udp, 1 tcp*/ };
+std::string mh_str(MhCfg const& m) { return fmt("multi-homed sender {10.0.0.5 behind NAT 77.0.0.1, 60.0.0.1 public}: %s first, %s, %s", m.first == 0 ? "natted address" : "public address", m.reuse == 0 ? "same socket object re-bound" : m.reuse == 1 ? "socket moved, then re-bound" : "fresh socket per address", m.proto == 0 ? "UDP" : "TCP"); }
+
+Result run_mh(MhCfg const& mc, Ctx* ctx)
+{
+	Result R;
+	auto ev = [&](std::string const& s) { R.events.push_back(s); R.times.push_back(now_ns()); if (ctx) ++ctx->R.transitions; };
+	auto fail = [&](std::string const& s) { R.fails.push_back(s); };
+	World w;
+	w.on_build = [&](World& ww, sim::simulation&) {
+		auto net = ww.queue(0, ms(5), 0); ww.chan = [net](ip::address, ip::address) { return World::hops_t{ net }; };
+		ww.out[addr("10.0.0.5")] = World::hops_t{ ww.queue(0, ms(1), 0), std::make_shared<sim::nat>(addr("77.0.0.1")) };
+		ww.out[addr("60.0.0.1")] = World::hops_t{ ww.queue(0, ms(1), 0) };
+		ww.in[addr("10.0.0.5")] = World::hops_t{ ww.queue(0, ms(1), 0) }; ww.in[addr("60.0.0.1")] = World::hops_t{ ww.queue(0, ms(1), 0) };
+		ww.out[addr("10.0.1.1")] = World::hops_t{ ww.queue(0, ms(1), 0) }; ww.in[addr("10.0.1.1")] = World::hops_t{ ww.queue(0, ms(1), 0) };
+	};
+	sim::simulation sim(w);
+	asio::io_context nM(sim, std::vector<ip::address>{ addr("10.0.0.5"), addr("60.0.0.1") }), nS(sim, addr("10.0.1.1"));
+	const char* A[2] = { mc.first == 0 ? "10.0.0.5" : "60.0.0.1", mc.first == 0 ? "60.0.0.1" : "10.0.0.5" };
+	auto visible = [](const char* a) { return std::string(a) == "10.0.0.5" ? std::string("77.0.0.1") : std::string(a); };
+	if (mc.proto == 0) {
+		ip::udp::socket rx(nS); rx.open(ip::udp::v4()); rx.bind(ip::udp::endpoint(addr("10.0.1.1"), 5000));
+		std::vector<char> rb(100); ip::udp::endpoint from; std::vector<std::string> seen; std::function<void()> rd;
+		rd = [&]() { rx.async_receive_from(asio::buffer(rb), from, [&](error_code const& ec, std::size_t n) { if (ec) return; seen.push_back(std::string(rb.data(), n) + " from " + eps(from)); ev("datagram " + seen.back()); rd(); }); }; rd();
+		std::unique_ptr<ip::udp::socket> tx(new ip::udp::socket(nM));
+		for (int round = 0; round < 3; ++round) { // first address, second address, first address again
+			const char* a = A[round % 2];
+			if (round > 0) { if (mc.reuse == 2) tx.reset(new ip::udp::socket(nM)); else { if (mc.reuse == 1 && round == 1) { std::unique_ptr<ip::udp::socket> m2(new ip::udp::socket(std::move(*tx))); tx = std::move(m2); } error_code ig; tx->close(ig); } }
+			tx->open(ip::udp::v4()); tx->bind(ip::udp::endpoint(addr(a), (unsigned short)(4000 + round))); tx->non_blocking(true);
+			error_code le; if (eps(tx->local_endpoint(le)) != fmt("%s:%d", a, 4000 + round)) fail(fmt("sender_local: the sender bound to %s:%d reports local endpoint %s", a, 4000 + round, eps(tx->local_endpoint(le)).c_str()));
+			std::string pl = fmt("m%d", round); error_code ec; tx->send_to(asio::buffer(pl), ip::udp::endpoint(addr("10.0.1.1"), 5000), 0, ec); if (ec) fail("send: " + ecs(ec));
+			sim.run();
+			std::string want = fmt("m%d from %s:%d", round, visible(a).c_str(), 4000 + round);
+			if (seen.size() != size_t(round + 1)) fail(fmt("deliver: datagram %d (sent from %s) was not delivered", round, a));
+			else if (seen.back() != want) fail(fmt("udp_source: datagram %d was sent from %s:%d; the receiver reports '%s', expected '%s'", round, a, 4000 + round, seen.back().c_str(), want.c_str()));
+		}
+		error_code ig; rx.cancel(ig); sim.run();
+	} else {
+		ip::tcp::acceptor acc(nS); acc.open(ip::tcp::v4()); acc.bind(ip::tcp::endpoint(addr("10.0.1.1"), 6000)); acc.listen();
+		std::unique_ptr<ip::tcp::socket> c(new ip::tcp::socket(nM));
+		for (int round = 0; round < 3; ++round) {
+			const char* a = A[round % 2];
+			if (round > 0) { if (mc.reuse == 2) c.reset(new ip::tcp::socket(nM)); else { error_code ig; c->close(ig); if (mc.reuse == 1 && round == 1) { std::unique_ptr<ip::tcp::socket> m2(new ip::tcp::socket(std::move(*c))); c = std::move(m2); } } }
+			c->open(ip::tcp::v4()); c->bind(ip::tcp::endpoint(addr(a), (unsigned short)(4000 + round)));
+			ip::tcp::socket srv(nS); ip::tcp::endpoint pe; bool up_c = false, up_s = false; std::string got; std::vector<char> rb(100);
+			acc.async_accept(srv, pe, [&](error_code const& ec) { if (ec) return; up_s = true; ev("accepted " + eps(pe)); srv.async_read_some(asio::buffer(rb), [&](error_code const& e2, std::size_t n) { if (!e2) got.assign(rb.data(), n); }); });
+			std::string pl = fmt("t%d", round);
+			c->async_connect(ip::tcp::endpoint(addr("10.0.1.1"), 6000), [&](error_code const& ec) { if (ec) return; up_c = true; c->async_write_some(asio::buffer(pl), [](error_code const&, std::size_t) {}); });
+			sim.run();
+			std::string want = fmt("%s:%d", visible(a).c_str(), 4000 + round);
+			if (!up_c || !up_s) { fail(fmt("establish: connection %d from %s was not established", round, a)); }
+			else { error_code e3; std::string re = eps(srv.remote_endpoint(e3));
+				if (eps(pe) != want) fail(fmt("accept_peer: connection %d was made from %s:%d; accept reports peer %s, expected %s", round, a, 4000 + round, eps(pe).c_str(), want.c_str()));
+				if (re != want) fail(fmt("accepted_remote: connection %d was made from %s:%d; the accepted socket's remote endpoint is %s, expected %s", round, a, 4000 + round, re.c_str(), want.c_str()));
+				if (got != pl) fail(fmt("data: connection %d delivered '%s', expected '%s'", round, got.c_str(), pl.c_str()));
+				error_code e4; if (eps(c->local_endpoint(e4)) != fmt("%s:%d", a, 4000 + round)) fail("sender_local: the connector's own local endpoint is " + eps(c->local_endpoint(e4))); }
+			error_code ig; srv.close(ig); sim.run();
+		}
+		error_code ig; c->close(ig); acc.close(ig); sim.run();
+	}
+	return R;
+}
+
 std::string scn_str(Scn const& s) { return fmt("placement=%d ext=%s traffic=%d client=C%d port=%s route=%s", s.placement, EXT[s.ext], s.traffic, s.client + 1, s.port ? "ephemeral" : "4000", s.lossy ? "lossy" : "loss-free"); }
 
 struct NatEngine : Engine
 {
-	std::vector<Scn> all;
+	std::vector<Scn> all; std::vector<MhCfg> mh;
 	uint64_t units(Args const&) override
 	{
+		mh.clear(); for (int f = 0; f < 2; ++f) for (int r = 0; r < 3; ++r) for (int p = 0; p < 2; ++p) mh.push_back(MhCfg{ f, r, p });
 		all.clear();
 		for (int p : PLACEMENTS) for (int e = 0; e < 2; ++e) for (int t = 0; t < 5; ++t) for (int c = 0; c < 2; ++c) for (int port = 0; port < 2; ++port) for (int l = 0; l < 2; ++l) all.push_back(Scn{ p, e, t, c, port, l });
-		return all.size();
+		return all.size() + mh.size();
 	}
 	static void judge(Scn const& sc, Result const& nat, Result const& plain, std::vector<std::string>& fails)
 	{
@@ -145,6 +214,19 @@ struct NatEngine : Engine
 	}
 	void run_unit(uint64_t u, Ctx& ctx) override
 	{
+		if (u >= all.size()) {
+			MhCfg const& m = mh[size_t(u - all.size())];
+			if (!ctx.next_case()) return;
+			Case c; c.set("mh", (long long)(u - all.size()));
+			ctx.begin(c);
+			Result a = run_mh(m, &ctx);
+			std::string tr; for (auto& e : a.events) tr += e + " ; ";
+			ctx.outcome(tr); ctx.state(mh_str(m)); ctx.R.counters["multi_homed_scenarios"]++;
+			auto clause_of = [](std::string const& x) { return x.substr(0, x.find(':')); };
+			for (auto& f : a.fails) add_violation(ctx, clause_of(f), c, mh_str(m) + ": " + f + " | " + tr, "multi-homed/" + clause_of(f));
+			ctx.end();
+			return;
+		}
 		Scn const& sc = all[size_t(u)];
 		if (!ctx.next_case()) return;
 		Case c; c.set("scn", (long long)u);
@@ -162,7 +244,16 @@ struct NatEngine : Engine
 	}
 	int replay(Case const& c, Args const& a) override
 	{
-		units(a); Scn const& sc = all.at(size_t(c.num("scn")));
+		units(a);
+		if (c.has("mh")) {
+			MhCfg const& m = mh.at(size_t(c.num("mh"))); Result x = run_mh(m, nullptr);
+			std::fprintf(stdout, "%s\n", mh_str(m).c_str());
+			for (size_t i = 0; i < x.events.size(); ++i) std::fprintf(stdout, "  @%lld %s\n", (long long)x.times[i], x.events[i].c_str());
+			for (auto& f : x.fails) std::fprintf(stdout, "VIOLATION %s\n", f.c_str());
+			std::fprintf(stdout, x.fails.empty() ? "=> ok\n" : "=> %zu violation(s)\n", x.fails.size());
+			return x.fails.empty() ? 0 : 1;
+		}
+		Scn const& sc = all.at(size_t(c.num("scn")));
 		std::fprintf(stdout, "%s\n", scn_str(sc).c_str());
 		Result x = run_scn(sc, true, nullptr), y = run_scn(sc, false, nullptr);
 		for (size_t i = 0; i < x.events.size(); ++i) std::fprintf(stdout, "  @%lld %s\n", (long long)x.times[i], x.events[i].c_str());
